@@ -1,8 +1,12 @@
 (* MODEL: cmp_model *)
 (* Line-protocol driver for the extracted comparer model (engine "cmp", property C20).
    stdin : one request per line:   <a> <b>      two netlist values, whitespace separated tokens
+                                   K <a>        the keys of all pins on the wires of a
    stdout: one line per request:   <outcome> wf=<0|1> noasg=<0|1>
            outcome of Cmp_model.cmp_run a b; wf/noasg = wf_namedb / no_asgb of a.
+           for K: "keys" followed by one token per pin (libraries / definitions / cables / wires /
+           pins in order), Cmp_model.nv_keys a: k:<0|1 outer>:<instance name>:<port name>:<index>
+           or e:<outcome> when get_pin_key raises
    Token grammar (see harness/cmp_canon.py, which prints it):
      nv    := "N" name oid top nlibs lib*
      top   := "T0" | "T1" inst
@@ -113,6 +117,12 @@ let read_nv () =
   let nl = next_int () in let libs = times nl read_lib in
   { n_name = name; n_oid = oid; n_top = top; n_libs = libs }
 
+let rec int_of_nat = function O -> 0 | S n -> 1 + int_of_nat n
+let rec int_of_pos = function XH -> 1 | XO p -> 2 * int_of_pos p | XI p -> 2 * int_of_pos p + 1
+let int_of_n = function N0 -> 0 | Npos p -> int_of_pos p
+let tok_of_str s = if s = [] then "-" else String.concat "," (List.map (fun c -> string_of_int (int_of_n c)) s)
+let tok_of_oname = function None -> "~" | Some s -> tok_of_str s
+
 let string_of_outcome = function
   | Accept -> "accept" | Reject -> "reject" | StopIter -> "stopiteration" | IndexErr -> "indexerror"
   | KeyErr -> "keyerror" | AttrErr -> "attributeerror" | TypeErr -> "typeerror" | Ill -> "ill"
@@ -125,6 +135,20 @@ let () =
         toks := Array.of_list (List.filter (fun s -> s <> "") (String.split_on_char ' ' line));
         pos := 0;
         (try
+           if !toks.(0) = "K" then begin
+             pos := 1;
+             let a = read_nv () in
+             let buf = Buffer.create 256 in
+             Buffer.add_string buf "keys";
+             List.iter (fun l -> List.iter (fun d -> List.iter (fun c -> List.iter (fun w -> List.iter (fun k ->
+               Buffer.add_char buf ' ';
+               (match k with
+                | Inl e -> Buffer.add_string buf ("e:" ^ string_of_outcome e)
+                | Inr (((o, i), q), b) ->
+                  Buffer.add_string buf (Printf.sprintf "k:%d:%s:%s:%d" (if o then 1 else 0)
+                                           (tok_of_oname i) (tok_of_oname q) (int_of_nat b)))) w) c) d) l) (nv_keys a);
+             print_endline (Buffer.contents buf)
+           end else
            let a = read_nv () in
            let b = read_nv () in
            Printf.printf "%s wf=%d noasg=%d\n" (string_of_outcome (cmp_run a b))
